@@ -1,4 +1,5 @@
 import BoxoModel.C44.Lemmas
+import BoxoModel.Gen.C44
 /-!
 # C44 — Reproviding announces every allowed key and terminates
 
@@ -171,5 +172,40 @@ example : reprovide { al := .dflt, maxBatch := 0, thr := 0, many := true, fixed 
 example : prioritized [some [⟨1, 0x12, 32, 0⟩, ⟨1, 0x12, 32, 1⟩, ⟨1, 0x12, 32, 0⟩], none,
     some [⟨1, 0x12, 32, 1⟩, ⟨1, 0x12, 32, 2⟩, ⟨1, 0x12, 32, 2⟩]] =
     [⟨1, 0x12, 32, 0⟩, ⟨1, 0x12, 32, 1⟩, ⟨1, 0x12, 32, 2⟩, ⟨1, 0x12, 32, 2⟩] := by decide
+
+/-- T-gen tie: the model's `batchSize` is the computation at the top of `Reprovide` with its two guards
+REGENERATED from provider/reprovider.go on every run (`Gen.C44.capByThroughput`, `Gen.C44.zeroBatch` — the
+second is the guard added by the zero-batch `fix:` commit; removing it makes the regeneration fail). -/
+theorem c44_gen_batchSize (cfg : Cfg) (hfix : cfg.fixed = true) (st : St) :
+    batchSize cfg st =
+      (let b := if Gen.C44.capByThroughput st.cbLive cfg.thr cfg.maxBatch then cfg.thr else cfg.maxBatch
+       if Gen.C44.zeroBatch b then 1 else b) := by
+  simp [batchSize, hfix, Gen.C44.capByThroughput, Gen.C44.zeroBatch]
+
+/-- T-gen tie: the model calls the throughput callback after a successful batch exactly when the regenerated
+condition `s.throughputCallback != nil && count >= minimum` holds (and then resets the counter). -/
+theorem c44_gen_callback (cfg : Cfg) (more : Nat → Bool) (st : St) (cbCalls n : Nat) (all : Bool)
+    (hr : cfg.hasReady = false) :
+    (Gen.C44.callbackDue st.cbLive (st.cnt + n) cfg.thr = true →
+      (account cfg more st cbCalls n true all).2.2 = [.cb all (st.cnt + n)] ∧
+      (account cfg more st cbCalls n true all).1.cnt = 0) ∧
+    (Gen.C44.callbackDue st.cbLive (st.cnt + n) cfg.thr = false →
+      (account cfg more st cbCalls n true all).2.2 = [] ∧
+      (account cfg more st cbCalls n true all).1.cnt = st.cnt + n) := by
+  constructor
+  · intro h
+    have h' : st.cbLive = true ∧ cfg.thr ≤ st.cnt + n := by simpa [Gen.C44.callbackDue] using h
+    simp [account, hr, h'.1, h'.2]
+  · intro h
+    have h' : st.cbLive = true → st.cnt + n < cfg.thr := by simpa [Gen.C44.callbackDue] using h
+    cases hc : st.cbLive with
+    | false => simp [account, hr, hc]
+    | true =>
+      have := h' hc
+      have hn : ¬ cfg.thr ≤ st.cnt + n := by omega
+      simp [account, hr, hc, hn]
+
+example : Gen.C44.zeroBatch 0 = true ∧ Gen.C44.capByThroughput true 3 10 = true ∧ Gen.C44.callbackDue true 5 5 = true ∧
+    Gen.C44.callbackDue false 5 5 = false := by decide
 
 end C44
